@@ -6,7 +6,7 @@ CACHE = os.environ.get("VERIF_BUILD_CACHE", "/var/tmp/bioscrape_verif")
 PY = "/venv/bin/python"
 ITEMS = ["bioscrape", "lineage", "setup.py", "pyproject.toml", "README.md", "MANIFEST.in", "setup.cfg"]
 SRC_EXT = (".pyx", ".pxd", ".py", ".toml", ".cfg", ".in", ".md")
-KEEP = 3
+KEEP = 4
 
 def _files():
     out = []
@@ -22,9 +22,11 @@ def _files():
             out.append(p)
     return out
 
-def source_hash():
+CY_EXT = (".pyx", ".pxd", "setup.py", ".toml", ".cfg")
+def source_hash(cython_only=False):
     h = hashlib.sha256()
     for f in _files():
+        if cython_only and not f.endswith(CY_EXT): continue
         h.update(os.path.relpath(f, REPO).encode()); h.update(b"\0")
         h.update(open(f, "rb").read()); h.update(b"\0")
     return h.hexdigest()[:20]
@@ -47,6 +49,26 @@ def ensure_build(verbose=True):
                       key=lambda d: os.path.getmtime(os.path.join(CACHE, d, ".ok")) if os.path.exists(os.path.join(CACHE, d, ".ok")) else 0)
         while len(olds) >= KEEP:
             shutil.rmtree(os.path.join(CACHE, olds.pop(0)), ignore_errors=True)
+        # compiled extension modules depend on the Cython sources only: reuse them when just .py files changed
+        cyh = source_hash(cython_only=True)
+        for d in os.listdir(CACHE):
+            cand = os.path.join(CACHE, d)
+            if os.path.exists(os.path.join(cand, ".ok")) and os.path.exists(os.path.join(cand, ".cyhash")) \
+               and open(os.path.join(cand, ".cyhash")).read() == cyh:
+                os.makedirs(dst)
+                for f in _files():
+                    rel = os.path.relpath(f, REPO)
+                    os.makedirs(os.path.dirname(os.path.join(dst, rel)) or dst, exist_ok=True)
+                    shutil.copy2(f, os.path.join(dst, rel))
+                for dd, dn, fn in os.walk(cand):
+                    for f in fn:
+                        if f.endswith(".so"):
+                            rel = os.path.relpath(os.path.join(dd, f), cand)
+                            shutil.copy2(os.path.join(dd, f), os.path.join(dst, rel))
+                open(os.path.join(dst, ".cyhash"), "w").write(cyh)
+                open(os.path.join(dst, ".ok"), "w").write("reused")
+                if verbose: print("[build] reused compiled modules of %s for %s" % (cand, dst), file=sys.stderr)
+                return dst
         os.makedirs(dst)
         for f in _files():
             rel = os.path.relpath(f, REPO)
@@ -66,6 +88,7 @@ def ensure_build(verbose=True):
             for f in fn:
                 if f.endswith(".cpp"):
                     os.remove(os.path.join(d, f))
+        open(os.path.join(dst, ".cyhash"), "w").write(cyh)
         open(os.path.join(dst, ".ok"), "w").write("%.1f" % (time.time() - t0))
         if verbose:
             print("[build] built %s in %.0fs" % (dst, time.time() - t0), file=sys.stderr)
